@@ -418,8 +418,16 @@ class C09(Property):
             # routes that differ only in variable names: outside the property's family, compared with the model only
             {"nf": False, "na": False, "regs": [["GET", "/u/:id/x"], ["GET", "/u/:name/y"], ["GET", "/u/:id"], ["GET", "/u/:name"]],
              "reqs": [["GET", "/u/1/x"], ["GET", "/u/1/y"], ["GET", "/u/1"], ["POST", "/u/1"]]},
+            # method names as inputs: validMethod accepts exactly the seven methods, byte for byte (this case carries the
+            # judgement when the constant extractor cannot read validMethod's shape and keeps the model's list)
+            {"nf": False, "na": False, "regs": [[m, "/m/:v"] for m in self.METHOD_VOCAB] + [["GET", "/m/:v"]],
+             "reqs": [[m, "/m/1"] for m in self.METHOD_VOCAB]},
         ]
         return self._server_corpus() + router_cases
+
+    METHOD_VOCAB = ["GET", "HEAD", "POST", "PUT", "PATCH", "DELETE", "CONNECT", "OPTIONS", "TRACE", "get", "Get", "gET", " GET", "GET ",
+                    "GET\t", "", "*", "GET,POST", "G\u0415T", "PROPFIND", "PROPPATCH", "MKCOL", "COPY", "MOVE", "LOCK", "UNLOCK", "QUERY",
+                    "PURGE", "LINK", "UNLINK", "SEARCH", "REPORT", "BREW", "M-SEARCH", "NOTIFY", "SUBSCRIBE", "PRI", "ANY", "ALL"]
 
     # ---- request segments spelled like the route table's own PATTERN segments (seeded C09-11) --------------
     # A `:name` pattern segment matches ANY single request segment, also one that is spelled ":name" itself (an unfilled
@@ -572,7 +580,22 @@ class C09(Property):
                        ["0", "GET", "/teams/green", "path", "c1"], ["0", "GET", "/users/carol/orders/7", "path", "hold"],
                        ["0", "GET", "/users/dave/profile/x", "path", ""]]),
         ]
-        return old + new + late
+        own = [
+            # the user's own router (rest.WithRouter, a recording wrapper): Start hands it the union of the prefix-extended
+            # tables in the order written; the first rejected route ends the binding (duplicate across two mounts)
+            dict(base, tables=[users, [["GET", "/h"], ["FOO", "/bad"], ["PUT", "/users/:id"]]],
+                 servers=[srv(ownrouter=True, nf=True, na=True), srv(ownrouter=True, cors=True), srv(ownrouter=True)],
+                 events=[mount(0, 0, 3, [["prefix", "/v1"]]), mount(0, 1, 3, [["prefix", "/v1"]], lo=2, hi=3), mount(0, 0, 3, []),
+                         mount(1, 0, 3, [["jwt"], ["prefix", "/x"]]), mount(1, 0, 3, [["prefix", "/x/"]], lo=1, hi=2), mount(1, 1, 3, [], lo=0, hi=1),
+                         mount(2, 1, 3, [["prefix", "/p"]]), {"ev": "start", "server": 0}, {"ev": "start", "server": 1}, {"ev": "start", "server": 2}],
+                 reqs=[["0", "GET", "/v1/users/7", "path"], ["0", "PUT", "/v1/users/7", "path"], ["0", "DELETE", "/v1/users/7", "path"],
+                       ["0", "GET", "/nope", "path"], ["1", "GET", "/x/users", "path"], ["2", "GET", "/p/h", "path"]]),
+            # WithRouter given LAST: the handlers and CORS set up by the earlier options belong to the replaced router
+            dict(base, tables=[users], servers=[srv(ownrouter_last=True, nf=True, na=True, cors=True, files=True, use=True), srv(nf=True, na=True)],
+                 events=[mount(0, 0, 3, [["prefix", "/v1"]]), mount(1, 0, 3, [["prefix", "/v1"]]), {"ev": "start", "server": 0}, {"ev": "start", "server": 1}],
+                 reqs=[[sv] + r + ["path"] for sv in ("0", "1") for r in probe + [["OPTIONS", "/v1/users"], ["GET", "/static/x.css"]]]),
+        ]
+        return old + new + late + own
 
     # names as inputs: segments and parameter names some layer might special-case
     SEGS_ODD = ["ab", ":", "a:b", "...", ":xy", "é", "日本", "a b", "%2F", "*", "~", "A", ":X", "x" * 300,
@@ -758,7 +781,43 @@ class C09(Property):
         return cases
 
     def _fixed_families(self):
-        return self._spelling_cases()
+        return self._spelling_cases() + self._cleaning_cases()
+
+    # ---- deterministic families for the other seeded classes (each seed of seeded/C09-* is caught by one of them,
+    # whatever VERIF_SEED is) -------------------------------------------------------------------------------------
+    ROOTS = ["/", "//", "/.", "/./", "/..", "/a/..", "/a/../", "/a/b/../..", "/../..", "/.//."]
+
+    def _cleaning_cases(self):
+        R = lambda regs, reqs: {"nf": False, "na": False, "regs": regs, "reqs": [list(r) + ["path"] for r in reqs]}
+        every = lambda paths, ms=ALL_METHODS: [[m, p] for p in paths for m in ms]
+        tails = lambda p: [p, p + "/", p + "//", p + "/.", p + "/./", p + "/x/..", p + "/x/../", "/" + p, p.replace("/", "//"), "/." + p]
+        cases = []
+        # (a) the root path is ONE EMPTY segment: a top-level variable route matches it (name bound to ""), for dispatch and
+        #     for the Allow set alike; with and without a literal "/" route of some method (seeds C09-8, C09-10)
+        cases.append(R([["POST", "/:id"], ["PUT", "/:id"], ["PUT", "/"], ["DELETE", "/:id/x"], ["PATCH", "/"]], every(self.ROOTS + ["/7", "/7/"])))
+        cases.append(R([["GET", "/:name"], ["HEAD", "/:name/:rest"]], every(self.ROOTS + ["/7", "/7/8/"], ["GET", "HEAD", "POST"])))
+        # (b) trailing slash / empty / dot segments in REQUESTS below inner nodes and variable-last routes (seed C09-4)
+        t = [["GET", "/files/:name"], ["POST", "/files/:name"], ["DELETE", "/files"], ["GET", "/dir/sub/leaf"], ["PUT", "/dir/:x/leaf"],
+             ["GET", "/v/:a/:b"]]
+        paths = [q for p in ("/files", "/files/7", "/dir", "/dir/sub", "/dir/sub/leaf", "/v", "/v/1", "/v/1/2") for q in tails(p)]
+        for i in range(0, len(paths), 20):
+            cases.append(R(t, every(paths[i:i + 20], ["GET", "POST", "PUT", "DELETE"])))
+        # (c) PATTERNS that need cleaning, each alone in its method at its depth (seed C09-9), and duplicates after cleaning
+        t = [["GET", "/users/:id/"], ["POST", "/orders/./:oid/items"], ["PUT", "//a"], ["DELETE", "/a/b/../c"], ["PATCH", "/x/y/z/../../.."],
+             ["HEAD", "/h//:v//"], ["OPTIONS", "/."], ["GET", "/users/:id"], ["PUT", "/a/"], ["DELETE", "/a//c"], ["OPTIONS", "/"]]
+        cases.append(R(t, every(["/users/7", "/users/7/", "/orders/9/items", "/a", "/a/c", "/", "/h/1", "/x", "/users//7", "/a/b/c"])))
+        # (d) registration ORDER: a pattern registered after longer patterns it is a prefix of (seed C09-5); re-registering
+        #     any of them is a duplicate
+        t = [["GET", "/api/users/:id/profile"], ["GET", "/api/users/:id"], ["GET", "/files/static/css"], ["GET", "/files/static"],
+             ["POST", "/a/b/c/d"], ["POST", "/a/b/c"], ["POST", "/a/b"], ["POST", "/a"], ["POST", "/"], ["PUT", "/:x/:y/:z"], ["PUT", "/:x/:y"],
+             ["PUT", "/:x"], ["GET", "/api/users/:id/profile"], ["GET", "/files/static/css"], ["POST", "/a/b/c/d"], ["PUT", "/:x/:y/:z"]]
+        cases.append(R(t, every(["/api/users/7/profile", "/api/users/7", "/files/static/css", "/files/static", "/a/b/c/d", "/a/b/c", "/a/b", "/a",
+                                 "/", "/1/2/3", "/1/2", "/1"], ["GET", "POST", "PUT", "DELETE"])))
+        # (e) several patterns match one path under different methods: Allow is the set over ALL of them (seed C09-6)
+        t = [["GET", "/users/me"], ["POST", "/users/:id"], ["PUT", "/:a/me"], ["DELETE", "/users/:id"], ["PATCH", "/:a/:b"], ["HEAD", "/users/me"],
+             ["GET", "/:a/x"], ["POST", "/y/:b"]]
+        cases.append(R(t, every(["/users/me", "/users/7", "/x/me", "/x/y", "/y/x", "/users"], ALL_METHODS + ["TRACE"])))
+        return cases
 
     def _decorate(self, rng, reqs, nregs=None):
         """more tokens on the flag (last element) of requests: a parked handler parks BEFORE its first read ("pre");
@@ -838,7 +897,7 @@ class C09(Property):
             c = rng.random()
             servers.append({"cors": c < 0.15, "nf": 0.15 < c < 0.35 and rng.random() < 0.6, "na": 0.15 < c < 0.35 and rng.random() < 0.6,
                             "use": rng.random() < 0.3, "chain": rng.random() < 0.15, "native": rng.random() < 0.25,
-                            "must": rng.random() < 0.2, "ownrouter": rng.random() < 0.12, "corskind": rng.randrange(3),
+                            "must": rng.random() < 0.2, "ownrouter": rng.random() < 0.2, "ownrouter_last": rng.random() < 0.06, "corskind": rng.randrange(3),
                             "files": rng.random() < 0.12, "extras": rng.random() < 0.12, "scribble": rng.random() < 0.2})
         nmount = rng.randint(1, 5)
         mounts = []
@@ -939,7 +998,7 @@ class C09(Property):
                 raise ExecError("c09 executor: case %s: %s" % (r.get("id"), r["err"]))
         return [{"regerr": r["regerr"], "pclean": r["pclean"], "res": r["res"],
                  "starts": r.get("starts") or [], "routes": r.get("routes") or [], "printed": r.get("printed") or [],
-                 "tables_after": r.get("tables_after") or []}
+                 "tables_after": r.get("tables_after") or [], "bound": r.get("bound")}
                 for r in res]
 
     def _henc(self, r):
@@ -980,7 +1039,10 @@ class C09(Property):
                 rs.append("mkReg %s %s %s" % (cstr(m), cstr(p), cz(h)))
                 h += 1
             tables.append(clist(rs))
-        cfgs = clist(["mkCfg %s %s %s %s %s" % (cbool(c["nf"]), cbool(c["na"]), cbool(c["cors"]), cbool(c["use"]), cbool(c["chain"]))
+        # rest.WithRouter given LAST replaces the router the earlier options (not-found / not-allowed handler, CORS) were
+        # applied to ("later RunOption might overwrite previous one"): none of them is in effect
+        eff = lambda c, k: bool(c[k]) and not c.get("ownrouter_last")
+        cfgs = clist(["mkCfg %s %s %s %s %s" % (cbool(eff(c, "nf")), cbool(eff(c, "na")), cbool(eff(c, "cors")), cbool(c["use"]), cbool(c["chain"]))
                       for c in case["servers"]])
         evs = []
         for e in case["events"]:
@@ -1003,7 +1065,9 @@ class C09(Property):
                 continue      # the server did not start / net/http rejected the request line: nothing was routed
             reqs.append("mkSReq %d %s %s %s %s %s" % (int(rq[0]), cstr(rq[1]), cstr(r["path"]), self._sresp(r),
                                                       clist([cz(t) for t in r.get("mws") or []]), self._late(r)))
-        return "CServer (mkSCase %s %s %s %s %s %s %s %s)" % (clist(tables), cfgs, clist(evs), starts, routes, printed, after, clist(reqs))
+        bound = clist(["None" if b is None else "(Some %s)" % clist(
+            ["(%s, %s, %s)" % (cstr(m), cstr(p), REGERR.get(int(e), "RegOther")) for m, p, e in b]) for b in obs.get("bound") or [None] * len(case["servers"])])
+        return "CServer (mkSCase %s %s %s %s %s %s %s %s %s)" % (clist(tables), cfgs, clist(evs), starts, routes, printed, after, clist(reqs), bound)
 
     def coq_case(self, case, obs):
         if case.get("kind") == "server":
@@ -1053,7 +1117,8 @@ class C09(Property):
         if rc != 0 or len(raw) != len(cases):
             raise ExecError("c09 -race executor rc=%s: %s" % (rc, out[-2000:]))
         obs = [{"regerr": r["regerr"], "pclean": r["pclean"], "res": r["res"], "starts": r.get("starts") or [],
-                "routes": r.get("routes") or [], "printed": r.get("printed") or [], "tables_after": r.get("tables_after") or []}
+                "routes": r.get("routes") or [], "printed": r.get("printed") or [], "tables_after": r.get("tables_after") or [],
+                "bound": r.get("bound")}
                for r in raw]
         rs = vlib.coq_eval_cases(self.id, self.check_module, [self.coq_case(c, o) for c, o in zip(cases, obs)])
         for c, o, (a, p) in zip(cases, obs, rs):
@@ -1095,7 +1160,7 @@ class C09(Property):
         if case.get("kind") == "server":
             fs += ["start_" + ("never" if s == -1 else REGERR.get(s, "RegOther")) for s in sorted(set(obs["starts"]))]
             for c in case["servers"]:
-                fs += ["srv_" + k for k in ("cors", "use", "nf", "na", "chain", "native", "must", "ownrouter", "files", "extras", "scribble") if c.get(k)]
+                fs += ["srv_" + k for k in ("cors", "use", "nf", "na", "chain", "native", "must", "ownrouter", "ownrouter_last", "files", "extras", "scribble") if c.get(k)]
                 if c["cors"]:
                     fs.append("corskind=%d" % c.get("corskind", 0))
             mounts = [e for e in case["events"] if e["ev"] == "mount"]
@@ -1187,7 +1252,7 @@ class C09(Property):
                     ne.append(e)
                 res.append(dict(case, tables=nt, events=ne))
         for s, c in enumerate(case["servers"]):
-            for k in ("use", "nf", "na", "chain", "native", "must", "ownrouter", "files", "extras", "scribble"):
+            for k in ("use", "nf", "na", "chain", "native", "must", "ownrouter", "ownrouter_last", "files", "extras", "scribble"):
                 if c.get(k):
                     res.append(dict(case, servers=case["servers"][:s] + [dict(c, **{k: False})] + case["servers"][s + 1:]))
         # move every Start to the end
